@@ -190,7 +190,11 @@ def csv_handler(m, universe, keep=None, share_handler=False):
     try:
         sources = []
         for assets in [m['assets']] + ([m['backup']] if m.get('backup') else []):
-            d = tempfile.mkdtemp(prefix='sess_', dir=TMPROOT)
+            # ONE directory path per process and vendor slot, emptied and rewritten for every case (a user regenerating
+            # the files of a data directory between backtests): a source must serve the files it was built from
+            d = os.path.join(TMPROOT, 'sess_%d_slot%d' % (os.getpid(), len(dirs)))
+            shutil.rmtree(d, ignore_errors=True)
+            os.makedirs(d)
             dirs.append(d)
             write_csvs(d, assets)
             sources.append(CSVDailyBarDataSource(d, Equity, adjust_prices=m.get('adjust', True)))
@@ -202,6 +206,7 @@ def csv_handler(m, universe, keep=None, share_handler=False):
 
 
 LAST = {}
+os.environ.pop('QSTRADER_CSV_DATA_DIR', None)   # never inherited; set and unset again by the default-handler cases only
 EXTRA_EQUITY = 65536.0
 
 
@@ -287,7 +292,13 @@ def run_session(c, shared_ds=None, reuse_universe=False, reuse_signals=False):
         os.makedirs(TMPROOT, exist_ok=True)
         env_dir = tempfile.mkdtemp(prefix='env_', dir=TMPROOT)
         write_csvs(env_dir, m['assets'])
-        os.environ['QSTRADER_CSV_DATA_DIR'] = env_dir
+        if c.get('default_handler') == 'cwd':
+            # the documented fallback: no QSTRADER_CSV_DATA_DIR at all, the files are in the current directory
+            # (the variable is unset from the start of this process: see below LAST)
+            old_cwd = os.getcwd()
+            os.chdir(env_dir)
+        else:
+            os.environ['QSTRADER_CSV_DATA_DIR'] = env_dir
         dh = None
         kw.update(account_name='Verification account', portfolio_id='000001', portfolio_name='Verification portfolio')
     try:
@@ -306,8 +317,11 @@ def run_session(c, shared_ds=None, reuse_universe=False, reuse_signals=False):
         return {'init': errname(e)}, ds
     finally:
         if env_dir is not None:
+            if c.get('default_handler') == 'cwd':
+                os.chdir(old_cwd)       # the environment is left as the library left it
+            else:
+                os.environ.pop('QSTRADER_CSV_DATA_DIR', None)
             shutil.rmtree(env_dir, ignore_errors=True)
-            os.environ.pop('QSTRADER_CSV_DATA_DIR', None)
     fills, updates, pcm_times, sig_obs = [], [], [], {}
     o_tx, o_up, o_qts, o_app = Portfolio.transact_asset, SimulatedBroker.update, QuantTradingSystem.__call__, Signal.append
 
